@@ -164,6 +164,10 @@ def gen_c07(rng, tier):
     if rng.random() < 0.4:
         spec["level"] = "kernel"
         spec["merge_at"] = rng.randint(1, m - 1) if m >= 2 else None
+        # one profile shared by all columns, passed as a 1-D array (broadcast by the kernel)
+        spec["shared_theta"] = bool(cols) and rng.random() < 0.2
+        if spec["shared_theta"]:
+            spec["theta"] = [theta[0]] * ncol
     else:
         spec["level"] = "grid"
         spec["target_on"] = rng.choice(["outer", "outer", "center"])
@@ -176,6 +180,13 @@ def gen_c07(rng, tier):
         spec["boundary"] = rng.choice(["fill", "extend"])
         spec["td_name"] = rng.choice([None, "theta"])
         spec["float32"] = rng.random() < 0.1
+        if rng.random() < 0.1:
+            # target_data=None: xgcm uses the axis' own outer coordinate (a 1-D profile)
+            spec["td_none"] = True
+            spec["bins_as"] = "da"
+            spec["target_on"] = "outer"
+            spec["td_lower_dim"] = False
+            spec["theta"] = [[float(k) for k in range(n + 1)]] * ncol
     return spec
 
 
@@ -243,7 +254,11 @@ def gen_c08(rng, tier):
                               "dim": rng.choice(["lev", "sigma"])}
         spec["td_name"] = rng.choice([None, "theta", "dens"])
         spec["da_name"] = rng.choice(["q", "salt", None])
-        spec["suffix"] = rng.choice([None, None, "_foo", ""])
+        spec["suffix"] = rng.choice([None, None, "_foo", "", "a"])
+        if spec["da_name"] and rng.random() < 0.25:
+            # an input whose name already ends with the suffix (e.g. a chained transform)
+            eff = "_transformed" if spec["suffix"] is None else spec["suffix"]
+            spec["da_name"] = spec["da_name"] + eff
         spec["dim_order_seed"] = rng.randrange(10**6)
         spec["chunks"] = [list(worlds.compositions(rng, c)) for c in cols]
         spec["td_lazy"] = rng.random() < 0.6
@@ -319,8 +334,9 @@ def run_c07(spec, cnt):
     if spec["level"] == "kernel":
         cnt.c["kernel_cases"] += 1
         eye = np.eye(n).reshape((n,) + (1,) * len(cols) + (n,))
-        Wnd = T.interp_1d_conservative(np.broadcast_to(eye, (n,) + tuple(cols) + (n,)).copy(), theta, bins)
-        out = T.interp_1d_conservative(phi, theta, bins)
+        theta_arg = theta[(0,) * len(cols)] if spec.get("shared_theta") else theta
+        Wnd = T.interp_1d_conservative(np.broadcast_to(eye, (n,) + tuple(cols) + (n,)).copy(), theta_arg, bins)
+        out = T.interp_1d_conservative(phi, theta_arg, bins)
         if Wnd.shape != (n,) + tuple(cols) + (m,) or out.shape != tuple(cols) + (m,):
             return V("C07", "shape", "kernel", feat, f"output shapes {Wnd.shape}, {out.shape} for n={n}, cols={cols}, m={m}")
         for ci, c in enumerate(_cols_iter(cols)):
@@ -372,7 +388,7 @@ def run_c07(spec, cnt):
                 return V("C07", "conservation", "kernel", feat,
                          f"column {c}: sum over bins {float(out[c].sum())} != sum over cells {float(phi[c].sum())} (theta {list(th)}, bins {list(bins)})")
         # reversing the bins only reverses the output - per column
-        out_rev = T.interp_1d_conservative(phi, theta, bins[::-1].copy())
+        out_rev = T.interp_1d_conservative(phi, theta_arg, bins[::-1].copy())
         if not np.array_equal(out_rev, out[..., ::-1], equal_nan=True):
             return V("C07", "reverse", "kernel", feat,
                      f"listing the bins in reverse order does not just reverse the output: bins {list(bins)} -> {out.tolist()}, reversed bins -> {out_rev.tolist()}")
@@ -380,7 +396,7 @@ def run_c07(spec, cnt):
         j = spec.get("merge_at")
         if j:
             mb = np.delete(bins, j)
-            om = T.interp_1d_conservative(phi, theta, mb)
+            om = T.interp_1d_conservative(phi, theta_arg, mb)
             exp = np.concatenate([out[..., : j - 1], (out[..., j - 1] + out[..., j])[..., None], out[..., j + 1:]], axis=-1)
             # a homogeneous cell sitting exactly on the removed edge is counted once before and after
             if not np.allclose(om, exp, rtol=1e-12, atol=1e-9):
@@ -451,6 +467,8 @@ def run_grid(spec, cnt, prop, feat):
     kw = {"target_data": td}
     if prop == "C07":
         kw["method"] = "conservative"
+        if spec.get("td_none"):
+            kw.pop("target_data")
         bins = np.array(spec["bins"], dtype="float64")
         if spec["bins_as"] == "da":
             target = xr.DataArray(bins, dims=["sigma"], coords={"sigma": bins}, name="sigma")
@@ -558,7 +576,8 @@ def run_grid(spec, cnt, prop, feat):
     lda = da.chunk(chunks)
     ltd = td.chunk({d: c for d, c in chunks.items() if d in td.dims}) if spec.get("td_lazy") else td
     lkw = dict(kw)
-    lkw["target_data"] = ltd
+    if "target_data" in kw:
+        lkw["target_data"] = ltd
     ltarget = target
     if isinstance(target, xr.DataArray) and target.ndim > 1 and spec.get("td_lazy"):
         ltarget = target.chunk({d: c for d, c in chunks.items() if d in target.dims})
